@@ -602,7 +602,38 @@ class ProgGen:
             st = ('set', ('var', n), e)
         return [st] + self.show(n, v)
 
+    def mixed_literal(self, d):
+        """[1, b]-style literal mixing mutually coercible element types: its
+        preferred element type is the first (in order of occurrence) that every
+        element can be coerced to."""
+        r = self.rnd
+        n = r.randrange(2, 5)
+        elems = []
+        for _ in range(n):
+            c = r.random()
+            if c < 0.45:
+                elems.append(('int', r.randrange(256)))
+            elif c < 0.9:
+                elems.append(self.gen_byte(0))
+            else:
+                elems.append(self.gen_int(0))
+        if all(e[0] == 'int' for e in elems):
+            elems[r.randrange(n)] = self.gen_byte(0)
+        return ('arr', tuple(elems)), n
+
     def gen_write(self, d):
+        if self.feat('bytes') and self.feat('arrays') and self.chance(0.1):
+            lit, n = self.mixed_literal(d)
+            try:
+                t = self.typer().typ(lit, self.typer_scopes())
+            except Exception:
+                t = None
+            if t is not None and t[1] in ('int', 'byte'):
+                if self.chance(0.5):
+                    self.need_dump.add('int')
+                    self.need_dump.add('byte')
+                    return [('expr', ('call', 'dump', (lit,))), self.sep()]
+                return [('expr', ('call', 'write', (('idx', lit, ('int', self.rnd.randrange(n))),))), self.sep()]
         t = self.rnd.choice(self.scalar_types())
         e = self.gen_of(t, d)
         if t == 'int' and not self.fits(e):
